@@ -43,6 +43,26 @@ The Lean side: `history_irrelevant*` (a previous run leaves nothing but paramete
 `setter_*` / `history_irrelevant_cleared` / `history_irrelevant_session` (what the setter records depends on the last
 assignments only; plain numbers clear the record; two objects with the same record and the same values outside it give the
 same outputs from the same stream).  Parallel runs (parallel=True) are outside this property: see C05 for their law.
+
+Samplers, boundaries, secondary paths (third seeded round):
+  * the (sampler, args) entries draw through EVERY R-style sampler of pygom.utilR with `seed` left at its default - rexp, rgamma, rnorm,
+    runif directly, rchisq, rbeta, rpois, rbinom, rnbinom through thin wrappers (`*_w`: the variate put on the scale of a rate; rbeta
+    returns an array also for n = 1 and the unchanged tree rejects an array-valued parameter) - and a user-written one (`hunif`).  Two
+    of three PARAM cases and every second HIST-param case take their first entry from R_FUNCTIONS in turn: every run of the check
+    uses each of them about 20 times; STOCH / HIST-stoch dicts draw them at random.  A draw that does not pass through a function of
+    the numpy.random MODULE (scipy calls the methods of the global RandomState object: rbeta) is replayed on the shadow generator by
+    its documented meaning (SAMPLER_REF); a RandomState / Generator constructed during a run is a `foreign-source` mismatch as before,
+    and the direct oracle (same seed, same outputs) is what reports the violation;
+  * SAMPLERS cases: each of the nine helpers on its own (n = 1 and n > 1): same global seed -> same variates, those of RandomState(seed)
+    under the documented parameterisation, the global generator consumed, no generator constructed, another seed -> another continuous
+    variate.  A failure is a mismatch + tag `sampler-not-reproducible:<name>` (the mechanism; the property speaks about simulations);
+    on the unchanged tree all nine are reproducible (tags `sampler-reproducible:<name>`);
+  * grids and horizons at the boundaries: STOCH grids starting after t0 / of one point (ndarray) / with a repeated time / with t0 twice,
+    3 % horizons AT t0; PARAM / HIST-param output times of one point (also as a bare number), starting at t0, with a repeated time;
+    tags `grid_shape:*`, `horizon-at-t0`; dicts mixing frozen, tuple and plain-number entries (`pdict:frozen+tuple+number`), dicts that
+    draw a parameter no rate uses (`pdict:draws-a-parameter-no-rate-uses`, 59 % of the generated models have such a parameter);
+  * a tree whose solve_stochast hands `_jump` a keyword the tracer's wrapper does not know cannot be traced: mismatch
+    `trace:jump-signature`, and the direct oracle goes on without the traced run (its TypeError is the harness's, not pygom's).
 """
 import copy
 import contextlib
@@ -75,9 +95,9 @@ LEAN = {"module": "Pygom.Props.C16",
                      "Pygom.C16.foreign_retry_breaks_counterexample", "Pygom.C16.mean_is_mean",
                      "Pygom.C16.first_wait_is_min_of_draws", "Pygom.C16.different_first_wait_different_path",
                      "Pygom.C16.different_streams_same_output_counterexample"]}
-BUDGET = {"quick": {"stoch": 330, "param": 180, "hist_stoch": 120, "hist_param": 120, "session": 60},
+BUDGET = {"quick": {"stoch": 330, "param": 180, "hist_stoch": 120, "hist_param": 120, "session": 60, "samplers": 4},
           "thorough": {"stoch": 3200, "param": 2400, "hist_stoch": 1200, "hist_param": 1200, "session": 600, "max_steps": 1000,
-                       "steps": [30, 80, 200, 400]}}
+                       "steps": [30, 80, 200, 400], "samplers": 40}}
 RULE = ("serial calls only (parallel=False). STOCH cases: bounded-rate event models of the shared generator (1-5 states, 1-5 events, "
         "all API routes, derived parameters), integer initial states, x {exact, adaptive tau, fixed tau with steps large enough to be "
         "rejected by the limits}, n = 1..6 iterations, horizon as number / one-element list / grid (list, tuple, array), 30% with "
@@ -92,11 +112,18 @@ RULE = ("serial calls only (parallel=False). STOCH cases: bounded-rate event mod
         "reference instance, two instances with 1 and 2-3 histories (kinds in HIST_STOCH_KINDS / HIST_PARAM_KINDS) each ending in the "
         "target configuration and followed by 'seed; target call' twice; non-trivial when the reference call recorded >= 5 events "
         "(stoch) / the runs differ from each other (param). SESSION cases: stoch_common.gen_session (2-4 runs, 60% exact, 30% grids, "
-        "fresh reference for half of the runs, repeat of the first call); non-trivial with >= 2 calls and >= 5 accepted steps.")
+        "fresh reference for half of the runs, repeat of the first call); non-trivial with >= 2 calls and >= 5 accepted steps. "
+        "(sampler, args) entries: rexp / rgamma / rnorm / runif of pygom.utilR directly, rchisq / rbeta / rpois / rbinom / rnbinom through "
+        "scaling wrappers, a user-written sampler; first entry of 2 of 3 PARAM cases and of every second HIST-param case taken from these "
+        "nine in turn. SAMPLERS cases: the nine helpers on their own, n in {1, 3}, always non-trivial. Boundaries: STOCH grids from t0 "
+        "(50%) / after t0 / one point / repeated time / t0 twice, 3% horizons at t0; PARAM output times after t0 / from t0 / repeated / one "
+        "point (also as a bare number).")
 ASSUMPTIONS = ["'different seeds change the outputs' is runtime: numpy maps different seeds to streams whose first consumed draws differ; "
                "checked on raw (scalar-horizon) stochastic output with >= 20 recorded events and a coincidence probability < 1e-12 "
                "computed from the recorded run (a continuous draw, or the product of the Poisson pmfs of the recorded counts), and "
-               "on random-parameter runs whose integrations depend on the drawn values",
+               "on random-parameter runs whose integrations depend on the drawn values (with integer-valued samplers - rpois, rbinom, "
+               "rnbinom - in the dict: only when they depend on a continuously drawn value, two seeds give the same integer variate with "
+               "positive probability)",
                "numpy's generator is a deterministic function of its state (its law is C05's concern)",
                "the integrator is a deterministic function of (parameters, initial values, times) (C02)",
                "IEEE double vs exact rational arithmetic: Poisson means / exponential scales compared to 1e-11 / 1e-12 relative, "
@@ -243,11 +270,11 @@ class Recorder:
         frozen.rvs = rvs
         return frozen
 
-    def wrap_sampler(self, key, sampler):
+    def wrap_sampler(self, key, sampler, name=None):
         rec = self
 
         def sample(*a, **k):
-            ev = {"k": "param", "key": key, "form": "tuple", "inner": [], "args": a, "kwargs": dict(k)}
+            ev = {"k": "param", "key": key, "form": "tuple", "inner": [], "args": a, "kwargs": dict(k), "sampler": name}
             rec.events.append(ev)
             outer, rec._ctx = rec._ctx, ev
             try:
@@ -317,6 +344,11 @@ def shadow_account(rec, seed, end_state):
                 if np.asarray(v).tobytes() != np.asarray(ev["raw"]).tobytes():
                     bad.append("rvs of %s returned %s, a generator seeded with %s gives %s at this point"
                                % (ev["key"], np.asarray(ev["raw"]).ravel()[:3], seed, np.asarray(v).ravel()[:3]))
+            elif ev.get("sampler") in SAMPLER_REF and not ev["inner"]:
+                v = SAMPLER_REF[ev["sampler"]](sh, *ev["args"], **ev["kwargs"])
+                if np.asarray(v).tobytes() != np.asarray(ev["raw"]).tobytes():
+                    bad.append("sampler %s of %s returned %s, a generator seeded with %s gives %s at this point"
+                               % (ev["sampler"], ev["key"], np.asarray(ev["raw"]).ravel()[:3], seed, np.asarray(v).ravel()[:3]))
             else:
                 for inner in ev["inner"]:
                     replay_np(inner)
@@ -332,8 +364,44 @@ def _scaled(v, f):
     return float(v) * f
 
 
-def gen_pdict(rng, names, base, form):
-    """JSON description of a parameter dict with at least one distribution-valued entry (dict order = list order)"""
+# pygom's own R-style samplers as the sampler of a (sampler, args) entry, `seed` left at its default (the documented meaning: numpy's
+# global generator).  rexp / rgamma / rnorm / runif take the parameter's scale directly; the others go through a thin wrapper that
+# puts the variate on the scale of a rate (and, for rbeta, takes the number out of the one-element array rbeta returns for n = 1:
+# the unchanged tree rejects an array-valued parameter when it integrates)
+R_DIRECT = ["rexp", "rgamma", "rnorm", "runif"]
+R_WRAPPED = ["rchisq_w", "rbeta_w", "rpois_w", "rbinom_w", "rnbinom_w"]
+R_FUNCTIONS = R_DIRECT + R_WRAPPED                   # cycled over the PARAM / HIST cases: every run of the check uses every one of them
+TUPLE_SAMPLERS = ["rgamma", "rgamma", "rnorm", "runif", "rexp", "hunif"] + R_WRAPPED
+
+
+def sampler_entry(rng, s, v):
+    as_dict = rng.random() < 0.4
+    if s == "rgamma":
+        return {"sampler": "rgamma", "kwargs": {"shape": 100.0, "rate": 100.0 / v}} if as_dict else {"sampler": "rgamma", "args": [100.0, 100.0 / v]}
+    if s == "rnorm":
+        return {"sampler": "rnorm", "kwargs": {"mean": v, "sd": 0.05 * v}} if as_dict else {"sampler": "rnorm", "args": [v, 0.05 * v]}
+    if s == "runif":
+        return {"sampler": "runif", "kwargs": {"min": 0.8 * v, "max": 1.2 * v}} if as_dict else {"sampler": "runif", "args": [0.8 * v, 1.2 * v]}
+    if s == "rexp":
+        return {"sampler": "rexp", "args": [1.0 / v]}
+    if s == "hunif":
+        return {"sampler": "hunif", "args": [0.8 * v, 1.2 * v]}
+    if s == "rchisq_w":                                # chi-square(50) * v / 50: mean v
+        return {"sampler": s, "kwargs": {"df": 50, "scale": v / 50.0}} if as_dict else {"sampler": s, "args": [50, v / 50.0]}
+    if s == "rbeta_w":                                 # Beta(20, 20) * 2v: mean v
+        return {"sampler": s, "kwargs": {"shape1": 20.0, "shape2": 20.0, "scale": 2.0 * v}} if as_dict else {"sampler": s, "args": [20.0, 20.0, 2.0 * v]}
+    if s == "rpois_w":                                 # Poisson(40) * v / 40
+        return {"sampler": s, "kwargs": {"mu": 40.0, "scale": v / 40.0}} if as_dict else {"sampler": s, "args": [40.0, v / 40.0]}
+    if s == "rbinom_w":                                # Binomial(40, 1/2) * v / 20
+        return {"sampler": s, "kwargs": {"size": 40, "prob": 0.5, "scale": v / 20.0}} if as_dict else {"sampler": s, "args": [40, 0.5, v / 20.0]}
+    if s == "rnbinom_w":                               # NegBinomial(20, 1/2) (mean 20) * v / 20
+        return {"sampler": s, "kwargs": {"size": 20, "prob": 0.5, "scale": v / 20.0}} if as_dict else {"sampler": s, "args": [20, 0.5, v / 20.0]}
+    raise ValueError("unknown sampler %r" % s)
+
+
+def gen_pdict(rng, names, base, form, force=None):
+    """JSON description of a parameter dict with at least one distribution-valued entry (dict order = list order).  `force`: the
+    sampler of the first entry (a (sampler, args) tuple whatever `form` says)"""
     names = list(names)
     rng.shuffle(names)
     if len(names) > 1 and rng.random() < 0.3:
@@ -341,6 +409,9 @@ def gen_pdict(rng, names, base, form):
     out = []
     for i, name in enumerate(names):
         v = float(base[name])
+        if i == 0 and force is not None:
+            out.append(dict({"name": name, "kind": "tuple"}, **sampler_entry(rng, force, v)))
+            continue
         if i > 0 and rng.random() < 0.3:
             out.append({"name": name, "kind": "fixed", "value": v * rng.choice([1.0, 0.5, 2.0])})
             continue
@@ -363,27 +434,54 @@ def gen_pdict(rng, names, base, form):
                 e = {"dist": "triang", "args": [0.5, 0.8 * v, 0.4 * v]}
             out.append(dict({"name": name, "kind": "frozen"}, **e))
         else:
-            s = rng.choice(["rgamma", "rgamma", "rnorm", "runif", "rexp", "hunif"])
-            as_dict = rng.random() < 0.4
-            if s == "rgamma":
-                e = {"sampler": "rgamma", "kwargs": {"shape": 100.0, "rate": 100.0 / v}} if as_dict else {"sampler": "rgamma", "args": [100.0, 100.0 / v]}
-            elif s == "rnorm":
-                e = {"sampler": "rnorm", "kwargs": {"mean": v, "sd": 0.05 * v}} if as_dict else {"sampler": "rnorm", "args": [v, 0.05 * v]}
-            elif s == "runif":
-                e = {"sampler": "runif", "kwargs": {"min": 0.8 * v, "max": 1.2 * v}} if as_dict else {"sampler": "runif", "args": [0.8 * v, 1.2 * v]}
-            elif s == "rexp":
-                e = {"sampler": "rexp", "args": [1.0 / v]}
-            else:
-                e = {"sampler": "hunif", "args": [0.8 * v, 1.2 * v]}
-            out.append(dict({"name": name, "kind": "tuple"}, **e))
+            out.append(dict({"name": name, "kind": "tuple"}, **sampler_entry(rng, rng.choice(TUPLE_SAMPLERS), v)))
     if not any(e["kind"] != "fixed" for e in out):
-        return gen_pdict(rng, names, base, form)
+        return gen_pdict(rng, names, base, form, force)
     return out
 
 
 def hunif(n, lo, hi):
     """a user-written sampler: scalar from numpy's global generator"""
     return np.random.uniform(lo, hi)
+
+
+def rchisq_w(n, df, scale):
+    from pygom import utilR
+    return utilR.rchisq(n, df) * scale
+
+
+def rbeta_w(n, shape1, shape2, scale):
+    from pygom import utilR
+    return utilR.rbeta(n, shape1, shape2)[0] * scale          # rbeta hands back an array also for n = 1; a parameter value is a number
+
+
+def rpois_w(n, mu, scale):
+    from pygom import utilR
+    return utilR.rpois(n, mu) * scale
+
+
+def rbinom_w(n, size, prob, scale):
+    from pygom import utilR
+    return utilR.rbinom(n, size, prob) * scale
+
+
+def rnbinom_w(n, size, prob, scale):
+    from pygom import utilR
+    return utilR.rnbinom(n, size, prob) * scale
+
+
+DISCRETE_SAMPLERS = ("rpois_w", "rbinom_w", "rnbinom_w")
+LOCAL_SAMPLERS = {"hunif": hunif, "rchisq_w": rchisq_w, "rbeta_w": rbeta_w, "rpois_w": rpois_w, "rbinom_w": rbinom_w, "rnbinom_w": rnbinom_w}
+
+
+def _ref_rbeta_w(sh, n, shape1, shape2, scale):
+    import scipy.stats as st
+    return st.beta.rvs(shape1, shape2, size=n, random_state=sh)[0] * scale
+
+
+# samplers whose draws do not pass through a function of the numpy.random MODULE (scipy calls the methods of the global RandomState
+# object directly): the accounting replays them by their documented meaning on the shadow generator instead of call by call
+SAMPLER_REF = {"rbeta_w": _ref_rbeta_w}
 
 
 def build_pdict(desc, rec=None):
@@ -398,11 +496,34 @@ def build_pdict(desc, rec=None):
             fz = getattr(st, e["dist"])(*e["args"])
             d[e["name"]] = rec.wrap_frozen(e["name"], fz) if rec is not None else fz
         else:
-            smp = hunif if e["sampler"] == "hunif" else getattr(utilR, e["sampler"])
+            smp = LOCAL_SAMPLERS[e["sampler"]] if e["sampler"] in LOCAL_SAMPLERS else getattr(utilR, e["sampler"])
             if rec is not None:
-                smp = rec.wrap_sampler(e["name"], smp)
+                smp = rec.wrap_sampler(e["name"], smp, e["sampler"])
             d[e["name"]] = (smp, dict(e["kwargs"])) if "kwargs" in e else (smp, tuple(e["args"]))
     return d
+
+
+def pdict_tags(case, desc=None):
+    """tags for the evidence histogram: the samplers of a random-parameter dict, and whether it draws a parameter that no rate,
+    ode term or derived parameter uses (the draw must be made all the same: the stream position of the later draws depends on it)"""
+    from .. import exprs as E
+    desc = desc if desc is not None else case.get("pdict")
+    if not desc:
+        return []
+    out = ["sampler:" + e["sampler"] for e in desc if e["kind"] == "tuple"] + ["frozen:" + e["dist"] for e in desc if e["kind"] == "frozen"]
+    used = set()
+    for p_ in case["meta"].get("procs", []):
+        used |= E.free_vars(p_["rate"])
+    for o in case["meta"].get("odes", []):
+        used |= E.free_vars(o["expr"])
+    for d in case["spec"].get("derived", []):
+        used |= E.free_vars(d[1])
+    if any(e["kind"] != "fixed" and e["name"] not in used for e in desc):
+        out.append("pdict:draws-a-parameter-no-rate-uses")
+    kinds = set(e["kind"] for e in desc)
+    if kinds == {"frozen", "tuple", "fixed"}:
+        out.append("pdict:frozen+tuple+number")
+    return out
 
 
 # ----------------------------------------------------------------------------- cases
@@ -437,14 +558,29 @@ def make_cases(rng, tier, budget):
         stoch_forms(r, c)
         if c["A"]["time"] == "int":
             c["sim"]["T"] = T = float(max(int(t0) + 1, int(math.ceil(T))))
+        if r.random() < 0.03:
+            c["sim"]["T"] = T = float(t0)                  # a horizon AT the initial time: nothing to simulate, still the same answer twice
         k = r.randint(3, 7)
-        c["grid"] = [t0 + (T - t0) * i / (k - 1) for i in range(k)]
+        g = [t0 + (T - t0) * i / (k - 1) for i in range(k)]
         c["grid_kind"] = r.choice(["list", "tuple", "array"])
+        # grids at the boundaries: first point after t0, a single point (ndarray: a one-element list is a horizon), a time twice
+        c["grid_shape"] = r.choice(["from_t0"] * 5 + ["after_t0", "after_t0", "one_point", "repeated", "t0_twice"])
+        if c["grid_shape"] == "after_t0":
+            g = g[1:]
+        elif c["grid_shape"] == "one_point":
+            g, c["grid_kind"] = [T], "array"
+        elif c["grid_shape"] == "repeated":
+            j = r.randrange(1, len(g))
+            g = g[:j] + [g[j]] + g[j:]
+        elif c["grid_shape"] == "t0_twice":
+            g = [t0] + g
+        c["grid"] = g
         # a second, different call for the history sequences
         c["B"] = {"time": "grid" if c["A"]["time"] != "grid" else "float", "n": r.randint(1, 3), "exact": r.random() < 0.5}
         c["seed2"] = r.randrange(2 ** 31)
         c["seed3"] = r.randrange(2 ** 31)
-        c["pdict"] = gen_pdict(r, base["meta"]["params"], base["params"], r.choice(["frozen", "tuple", "mixed"])) if r.random() < 0.3 else None
+        c["pdict"] = gen_pdict(r, base["meta"]["params"], base["params"], r.choice(["frozen", "tuple", "mixed"]),
+                               force=r.choice([None] + R_FUNCTIONS)) if r.random() < 0.3 else None
         c["max_steps"] = budget.get("max_steps", SC.MAX_STEPS)
         cases.append(c)
     while len([c for c in cases if c["kind"] == "param"]) < n_pa:
@@ -456,22 +592,34 @@ def make_cases(rng, tier, budget):
         c["kind"] = "param"
         c["sim"] = SC.sim_settings(r, base, "exact", steps=[20, 40])
         t0, T = c["sim"]["t0"], c["sim"]["T"]
-        k = r.randint(2, 8)
-        c["grid"] = [t0 + (T - t0) * (i + 1) / k for i in range(k)]
+        k = r.choice([1, 1] + list(range(2, 9)) * 2)
+        g = [t0 + (T - t0) * (i + 1) / k for i in range(k)]
+        # output times at the boundaries: one point (also handed over as a bare number), t0 itself first, a time twice
+        c["grid_shape"] = "one_point" if k == 1 else r.choice(["after_t0"] * 4 + ["from_t0", "repeated"])
+        if c["grid_shape"] == "from_t0":
+            g = [t0] + g
+        elif c["grid_shape"] == "repeated":
+            j = r.randrange(len(g))
+            g = g[:j] + [g[j]] + g[j:]
+        c["grid"] = g
         c["form"] = r.choice(["frozen", "tuple", "mixed"])
-        c["pdict"] = gen_pdict(r, base["meta"]["params"], base["params"], c["form"])
+        # two of three PARAM cases draw their first entry through one of pygom's own samplers, taken in turn (every run uses all of them)
+        k_par = len([x for x in cases if x["kind"] == "param"])
+        c["pdict"] = gen_pdict(r, base["meta"]["params"], base["params"], c["form"], force=R_FUNCTIONS[(k_par // 3 * 2 + k_par % 3) % len(R_FUNCTIONS)] if k_par % 3 else None)
         c["n"] = r.randint(1, 6)
         c["A"] = {"entry": r.choice(["simulate_param", "solve_determ"]), "n": c["n"], "n_form": r.choice(["int", "int", "np_i64"])}
         c["B"] = {"entry": r.choice(["simulate_param", "solve_determ"]), "n": r.randint(1, 3)}
-        c["grid_form"] = r.choice(["array", "array", "list", "tuple"])
+        c["grid_form"] = r.choice(["array", "array", "list", "tuple"] + (["number", "number"] if c["grid_shape"] == "one_point" else []))
         c["prep"] = r.choice([["other", "none"], ["none", "other"], ["other", "same"], ["same", "other"], ["none", "same"]])
         c["seed2"] = r.randrange(2 ** 31)
         c["seed3"] = r.randrange(2 ** 31)
         cases.append(c)
+    for _ in range(budget.get("samplers", 0)):
+        cases.append(gen_samplers_case(random.Random(rng.getrandbits(64))))
     for kind, gen_ in (("hist_stoch", gen_hist_stoch), ("hist_param", gen_hist_param), ("session", gen_session_case)):
         n = 0
         while n < budget.get(kind, 0):
-            c = gen_(random.Random(rng.getrandbits(64)), budget)
+            c = gen_(random.Random(rng.getrandbits(64)), budget, n)
             if c is not None:
                 cases.append(c)
                 n += 1
@@ -482,6 +630,7 @@ def search_cases(rng, tier, budget):
     b = dict(budget)
     for k in ("stoch", "param", "hist_stoch", "hist_param", "session"):
         b[k] = budget.get(k, 0) * 3
+    b["samplers"] = 0
     return make_cases(rng, tier, b)
 
 
@@ -685,7 +834,9 @@ def run_stoch(case):
     modek = "exact" if exact else "tau"
     form = "raw" if A["time"] != "grid" else "grid"
     pform = "fixed-params" if not case.get("pdict") else "stoch-params"
-    tags += ["stoch", "mode:" + sim["mode"], "time:" + A["time"], "n=%d" % n, pform, "nS=%d" % nS, "nE=%d" % nE]
+    tags += ["stoch", "mode:" + sim["mode"], "time:" + A["time"], "n=%d" % n, pform, "nS=%d" % nS, "nE=%d" % nE] + pdict_tags(case)
+    if "grid" in (A["time"], B["time"]): tags.append("grid_shape:%s" % case.get("grid_shape", "from_t0"))
+    if float(sim["T"]) <= float(sim["t0"]): tags.append("horizon-at-t0")
     sig = lambda what, extra="": "C16:solve_stochast:%s:%s:%s:%s%s" % (what, modek, form, pform, extra)
 
     def mm(what, detail):
@@ -701,6 +852,13 @@ def run_stoch(case):
         end_state = np.random.get_state()
     if tr.error is not None:
         tags.append("raised:" + type(tr.error).__name__)
+    # the tracer replaces `_jump` by a wrapper with the signature of the unchanged tree; a tree that passes `_jump` another keyword
+    # cannot be traced: the tie is broken (mismatch), and the direct oracle below goes on without the traced run - the error is the
+    # harness's, not pygom's
+    tracer_blind = isinstance(tr.error, TypeError) and "rec_jump" in str(tr.error)
+    if tracer_blind:
+        mm("trace:jump-signature", "solve_stochast calls _jump with arguments the tracer does not know: %s" % str(tr.error)[:200])
+        tags.append("tracer-blind:_jump-signature")
     O1 = tr.result
     stream = rec.stream()
     if not stream or stream[0][0] != "seed":
@@ -831,7 +989,8 @@ def run_stoch(case):
         tags.append("rejected_form:t0:" + sim["t0_form"])
     mB = fresh_stoch_model(case)
     O2 = call(mB, case, "A", seed)
-    check_same("traced run vs fresh model", O2, O1p, "same-seed-differs")
+    if not tracer_blind:
+        check_same("traced run vs fresh model", O2, O1p, "same-seed-differs")
     O3 = call(mB, case, "A", seed)
     check_same("same model, second time", O3, O2, "same-seed-differs-second-call")
     # full_output=False returns the states of the same run
@@ -906,7 +1065,7 @@ def fresh_param_model(case, rec=None, prep="same"):
 def grid_arg(case, form=None):
     g = [float(v) for v in case["grid"]]
     form = form or case.get("grid_form") or "array"
-    return {"array": lambda: np.array(g, float), "list": lambda: list(g), "tuple": lambda: tuple(g)}[form]()
+    return {"array": lambda: np.array(g, float), "list": lambda: list(g), "tuple": lambda: tuple(g), "number": lambda: float(g[-1])}[form]()
 
 
 def param_call(model, case, which, seed, full=True, reseed=True):
@@ -948,6 +1107,7 @@ def _run_param(case):
              "partial-dict" if len(case["pdict"]) < len(meta["params"]) else "full-dict"]
     if any(e["kind"] == "fixed" for e in case["pdict"]):
         tags.append("dict-with-numbers")
+    tags += pdict_tags(case) + ["grid_shape:%s" % case.get("grid_shape", "after_t0"), "grid_form:%s" % case.get("grid_form", "array")]
     sig = lambda what, entry=A["entry"]: "C16:%s:%s:%s" % (entry, what, formk)
 
     def mm(what, detail):
@@ -1013,7 +1173,7 @@ def _run_param(case):
         mm("global-generator-accounting", b)
 
     # ---- the Lean model on the recorded values; integrator = reference integrations at the parameter vectors the stream yields
-    sensitive = False
+    sensitive, sensitive_cont = False, True
     rand_entries = [e for e in case["pdict"] if e["kind"] != "fixed"]
     kk = len(rand_entries)
     if finite and all(s_[0] == "param" and s_[2] is not None for s_ in body) and kk and len(body) % kk == 0:
@@ -1065,6 +1225,20 @@ def _run_param(case):
                     mm("params-after-call", "model %s code %s" % ([float(Fraction(v)) for v in r["cur"]], after))
             sols = [np.array([[float(Fraction(v)) for v in row] for row in t_["sol"]]) for t_ in table]
             sensitive = any(not np.array_equal(sols[0], s_) for s_ in sols[1:])
+            # "another seed, another output" has probability one only when the output depends on a CONTINUOUS draw (two seeds give
+            # the same Poisson / binomial variate with positive probability): with integer-valued samplers in the dict the rule is
+            # applied only if moving the continuously drawn parameters moves the reference integration
+            if sensitive and any(e.get("sampler") in DISCRETE_SAMPLERS for e in rand_entries):
+                cont = [names.index(e["name"]) for e in rand_entries if e.get("sampler") not in DISCRETE_SAMPLERS]
+                sensitive_cont = False
+                if cont:
+                    v2 = list(vecs[0])
+                    for i_ in cont:
+                        v2[i_] = v2[i_] * 1.07
+                    mref.parameters = {nm: float(v) for nm, v in zip(names, v2)}
+                    sol2, err2 = quiet(mref.integrate, np.array(case["grid"], float))
+                    sensitive_cont = err2 is None and bool(np.all(np.isfinite(sol2))) and not np.array_equal(np.asarray(sol2, float), sols[0])
+                tags.append("discrete-sampler:" + ("output-depends-on-a-continuous-draw" if sensitive_cont else "different-seed-rule-not-applicable"))
     elif finite:
         mm("schedule:shape", "%d recorded events for %d distribution-valued entries: %s" % (len(body), kk, [b[:2] for b in body[:6]]))
 
@@ -1079,8 +1253,9 @@ def _run_param(case):
             return False
         if got.err is None and not same(got.snap, want.snap):
             viol.append({"what": "%s: outputs differ after the same np.random.seed" % name, "signature": sig(what, entry),
-                         "detail": "seed %s (instances used before for: %s): Y %s vs %s ; Y_all[0] %s vs %s"
-                                   % (seed, prep, brief(got.out[0]), brief(want.snap[0]), brief(got.out[1][0]), brief(want.snap[1][0]))})
+                         "detail": "seed %s (instances used before for: %s; dict entries %s): Y %s vs %s ; Y_all[0] %s vs %s"
+                                   % (seed, prep, [e.get("sampler") or e.get("dist") or "number" for e in case["pdict"]],
+                                      brief(got.out[0]), brief(want.snap[0]), brief(got.out[1][0]), brief(want.snap[1][0]))})
             return False
         return True
 
@@ -1119,7 +1294,7 @@ def _run_param(case):
                      "signature": sig("full-output-differs"), "detail": "%s vs %s" % (brief(O5.out), brief(O2.snap[0]))})
     O4 = call(mB, case, "A", case["seed2"])
     check_mean(O4, A["entry"], n)
-    if sensitive and finite:
+    if sensitive and finite and sensitive_cont:
         tags.append("different-seed-checked")
         if O4.err is None and O2.err is None and same(O4.out[1], O2.snap[1]):
             viol.append({"what": "two different seeds give identical runs", "signature": sig("different-seed-same"),
@@ -1241,7 +1416,7 @@ def gen_history_stoch(r, c, kind, sib):
     raise ValueError(kind)
 
 
-def gen_hist_stoch(r, budget):
+def gen_hist_stoch(r, budget, index=0):
     base = SC.gen_sim_case(r, max_x0=25)
     sib = SC.gen_sim_case(r, max_x0=25)
     if base is None:
@@ -1254,7 +1429,8 @@ def gen_hist_stoch(r, budget):
     time = SC.gen_grid_time(r, t0, T, max_points=6, after_t0=0.0, past=(1, 1, 1.5)) if r.random() < 0.3 else \
         SC.gen_scalar_time(r, T, kinds=("float", "float", "np_f64", "list1", "tuple1", "int"))
     c["target"] = {"time": time, "n": r.randint(1, 4), "n_form": r.choice(["int", "int", "np_i64"]), "exact": mode == "exact", "seed": c["sim"]["np_seed"]}
-    c["pdict"] = gen_pdict(r, base["meta"]["params"], base["params"], r.choice(["frozen", "tuple", "mixed"])) if r.random() < 0.25 else None
+    c["pdict"] = gen_pdict(r, base["meta"]["params"], base["params"], r.choice(["frozen", "tuple", "mixed"]),
+                           force=r.choice([None] + R_FUNCTIONS)) if r.random() < 0.25 else None
     c["max_steps"] = budget.get("max_steps", SC.MAX_STEPS)
     kinds = [k for k in HIST_STOCH_KINDS]
     inst = []
@@ -1302,7 +1478,7 @@ def gen_history_param(r, c, kind, sib):
     raise ValueError(kind)
 
 
-def gen_hist_param(r, budget):
+def gen_hist_param(r, budget, index=0):
     base = SC.gen_sim_case(r, max_x0=25)
     sib = SC.gen_sim_case(r, max_x0=25)
     if base is None:
@@ -1311,13 +1487,16 @@ def gen_hist_param(r, budget):
     c["kind"], c["entry"] = "hist", "param"
     c["sim"] = SC.sim_settings(r, base, "exact", steps=[20, 40])
     t0, T = c["sim"]["t0"], c["sim"]["T"]
-    k = r.randint(2, 8)
+    k = r.choice([1] + list(range(2, 9)) * 2)                 # one output time: also handed over as a bare number
     c["grid"] = [t0 + (T - t0) * (i + 1) / k for i in range(k)]
-    c["pdict"] = gen_pdict(r, base["meta"]["params"], base["params"], r.choice(["frozen", "tuple", "mixed"]))
+    if k > 2 and r.random() < 0.15:
+        c["grid"] = c["grid"][:1] + c["grid"]                  # a time twice
+    c["pdict"] = gen_pdict(r, base["meta"]["params"], base["params"], r.choice(["frozen", "tuple", "mixed"]),
+                           force=R_FUNCTIONS[(index // 2) % len(R_FUNCTIONS)] if index % 2 else None)
     c["target"] = {"entry": r.choice(["simulate_param", "solve_determ"]), "n": r.randint(1, 5), "n_form": r.choice(["int", "int", "np_i64"]),
                    "seed": c["sim"]["np_seed"]}
     c["max_steps"] = 60
-    grid_forms = ["array", "list", "tuple"]
+    grid_forms = ["array", "list", "tuple"] + (["number"] if k == 1 else [])
     inst = []
     # instance 1: never integrated before the seeded call ("fresh") or used once; instance 2: 2-3 histories in a row
     k1 = r.choice(["fresh", "integrate_other", "same_entry_other_grid", "other_entry"])
@@ -1426,7 +1605,8 @@ class HistInstance:
 
     def param(self, entry, grid, n, seed, full=True, form="array", n_form="int"):
         np.random.seed(seed)
-        g = {"array": lambda: np.array(grid, float), "list": lambda: [float(v) for v in grid], "tuple": lambda: tuple(float(v) for v in grid)}[form]()
+        g = {"array": lambda: np.array(grid, float), "list": lambda: [float(v) for v in grid], "tuple": lambda: tuple(float(v) for v in grid),
+             "number": lambda: float(grid[-1])}[form]()
         return Res(quiet(getattr(self.model, entry), g, np.int64(n) if n_form == "np_i64" else int(n), parallel=False, full_output=full),
                    "%s(grid of %d, n=%s), seed %s" % (entry, len(grid), n, seed))
 
@@ -1483,7 +1663,7 @@ class HistInstance:
 def run_hist(case):
     del WARNED[:]
     entry = case["entry"]
-    tags, mism, viol = ["hist", "hist:" + entry], [], []
+    tags, mism, viol = ["hist", "hist:" + entry] + pdict_tags(case), [], []
     tg = case["target"]
     seed = tg["seed"]
     keeper = Keeper()
@@ -1567,8 +1747,80 @@ def run_hist(case):
                        "target": tg, "instances": [{k: v for k, v in i.items() if k != "histories"} | {"histories": [h["kind"] for h in i["histories"]]} for i in case["instances"]]}}
 
 
+# ----------------------------------------------------------------------------- SAMPLERS: the mechanism itself, function by function
+# "all draws go through numpy's global generator when seed is None" (the property's mechanism anchor), for every R-style sampler of
+# pygom.utilR called the way a (sampler, args) entry calls it (n = 1) and with n > 1: the same global seed gives the same variates,
+# the variates are those of RandomState(seed) under the documented parameterisation, the global generator is consumed, no other
+# generator is constructed, another seed changes a continuous variate.  A helper that fails is a BROKEN TIE (mismatch + tag
+# `sampler-not-reproducible:<name>`), not yet a violation: the property speaks about simulations, and the PARAM / HIST / STOCH cases
+# that draw through every one of these helpers are where a violation shows.
+def _sampler_refs():
+    import scipy.stats as st
+    one = lambda v, n: v[0] if n == 1 else v
+    return {"rexp": (lambda rs, n, rate: one(rs.exponential(scale=1.0 / rate, size=n), n), True),
+            "rgamma": (lambda rs, n, shape, rate: one(rs.gamma(shape, scale=1.0 / rate, size=n), n), True),
+            "rnorm": (lambda rs, n, mean, sd: one(rs.normal(mean, sd, size=n), n), True),
+            "rchisq": (lambda rs, n, df: one(rs.chisquare(df, size=n), n), True),
+            "runif": (lambda rs, n, lo, hi: one(rs.uniform(lo, hi, size=n), n), True),
+            "rbeta": (lambda rs, n, a, b: st.beta.rvs(a, b, size=n, random_state=rs), True),
+            "rpois": (lambda rs, n, mu: one(rs.poisson(mu, size=n), n), False),
+            "rbinom": (lambda rs, n, size, prob: one(rs.binomial(size, prob, size=n), n), False),
+            "rnbinom": (lambda rs, n, size, prob: one(rs.negative_binomial(size, prob, size=n), n), False)}
+
+
+def gen_samplers_case(r):
+    v = r.choice(SC.PARAM_VALUES)
+    ent = [{"fn": "rexp", "args": [1.0 / v]}, {"fn": "rgamma", "args": [r.choice([2.0, 100.0]), 100.0 / v]}, {"fn": "rnorm", "args": [v, 0.05 * v]},
+           {"fn": "rchisq", "args": [r.choice([3, 50])]}, {"fn": "runif", "args": [0.8 * v, 1.2 * v]}, {"fn": "rbeta", "args": [r.choice([2.0, 20.0]), 20.0]},
+           {"fn": "rpois", "args": [r.choice([4.0, 40.0])]}, {"fn": "rbinom", "args": [40, r.choice([0.25, 0.5])]}, {"fn": "rnbinom", "args": [20, 0.5]}]
+    r.shuffle(ent)
+    for e in ent:
+        e["n"] = r.choice([1, 1, 3])
+    return {"kind": "samplers", "seed": r.randrange(2 ** 31), "seed2": r.randrange(2 ** 31), "entries": ent}
+
+
+def run_samplers(case):
+    from pygom import utilR
+    tags, mism = ["samplers"], []
+    refs = _sampler_refs()
+    s1, s2 = int(case["seed"]), int(case["seed2"])
+    for e in case["entries"]:
+        name, n, a = e["fn"], int(e["n"]), list(e["args"])
+        f = getattr(utilR, name)
+        ref, continuous = refs[name]
+        problems = []
+        rec = Recorder()
+        with rec:
+            np.random.seed(s1)
+            st0 = np.random.get_state()
+            v1 = np.array(f(n, *a), copy=True)
+            st1 = np.random.get_state()
+            np.random.seed(s1)
+            v2 = np.array(f(n, *a), copy=True)
+            np.random.seed(s2)
+            v3 = np.array(f(n, *a), copy=True)
+        if not same(v1, v2):
+            problems.append("two calls after np.random.seed(%d) return %s and %s" % (s1, v1.ravel()[:3], v2.ravel()[:3]))
+        if rec.foreign:
+            problems.append("constructs / uses %s" % sorted(set(rec.foreign)))
+        if np.array_equal(st0[1], st1[1]) and st0[2] == st1[2]:
+            problems.append("does not consume numpy's global generator")
+        if continuous and same(v1, v3):
+            problems.append("seeds %d and %d give the same variate %s" % (s1, s2, v1.ravel()[:3]))
+        want = np.asarray(ref(np.random.RandomState(s1), n, *a))
+        if not problems and not (want.shape == v1.shape and np.array_equal(want, v1)):
+            problems.append("after np.random.seed(%d) returns %s, RandomState(%d) gives %s under the documented parameterisation" % (s1, v1.ravel()[:3], s1, want.ravel()[:3]))
+        if problems:
+            tags.append("sampler-not-reproducible:" + name)
+            mism.append({"what": "sampler:%s:not-the-global-stream" % name, "detail": "%s(%d, %s) with seed left at its default: %s" % (name, n, a, "; ".join(problems))})
+        else:
+            tags.append("sampler-reproducible:" + name)
+    return {"nontrivial": True, "mismatches": mism, "violations": [], "tags": tags,
+            "sample": {"kind": "samplers", "entries": case["entries"], "seed": s1}}
+
+
 # ----------------------------------------------------------------------------- SESSION: the shared session engine, judged by C16
-def gen_session_case(r, budget):
+def gen_session_case(r, budget, index=0):
     base = SC.gen_sim_case(r, max_x0=25)
     sib = SC.gen_sim_case(r, max_x0=25)
     if base is None:
@@ -1630,6 +1882,6 @@ def run_session_case(case):
 
 def run_case(case):
     k = case["kind"]
-    r = {"stoch": run_stoch, "param": run_param, "hist": run_hist, "session": run_session_case}[k](case)
+    r = {"stoch": run_stoch, "param": run_param, "hist": run_hist, "session": run_session_case, "samplers": run_samplers}[k](case)
     r["tags"] = sorted(set(r["tags"]))
     return r
